@@ -275,6 +275,7 @@ def block_inv(ctx, blk):
 P.verify(fn(
     'sfc_models.equation.EquationBlock.ReplaceTokensFromLookup',
     args=dict(self=Ref('EquationBlock'), lookup=Dict(STR, STR)),
+    modifies=['f.Term.Term'],
     requires=[('block_inv', 'block_inv(self)'), ('lookup_is_not_the_block', 'lookup is not self.Equations')],
     loops={0: LoopSpec(header='for eq in self.Equations.values()', index='b', modifies=['f.Term.Term'], invariants=[
         ('bounds', '0 <= b and b <= len(keys(self.Equations))'),
